@@ -28,7 +28,8 @@ def mlmc_case(draw, tier, with_cv=True, modes=("adaptive", "adaptive", "adaptive
         criteria = "run-to-max"
         l0 = draw(st.integers(0, 2))
     case = {"law": law, "mode": mode, "initial_level": l0, "criteria": criteria,
-            "maximum_level": draw(st.integers(l0, 8)) if mode == "adaptive" else draw(st.integers(l0, 6)),
+            # (a maximum below the initial level is a legitimate, if odd, configuration: the run starts at the maximum)
+            "maximum_level": draw(st.integers(max(l0 - 2, 2 if criteria == "giles" else 0), 8 if mode == "adaptive" else 6)),
             "n0": draw(st.integers(2, 40)), "rmse_rel": draw(_f(0.03, 0.5)),
             "rates": draw(st.sampled_from(["given", "regressed", "mixed"])),
             "df": draw(_f(0.5, 1.0)), "notional": draw(st.sampled_from([1.0, 0.01, 250.0, 1.0, 1e-6, 1e-9])),
@@ -49,6 +50,7 @@ def mlmc_case(draw, tier, with_cv=True, modes=("adaptive", "adaptive", "adaptive
         elif flavour == "identical-top-level" and criteria == "giles":
             law["identical_levels"] = [l0]
         case["flavour"] = flavour
+    case["config_reassigned"] = draw(st.sampled_from([0, 0, 0, 17, -1])) if case["n0"] > 2 else 0
     if low_levels and criteria == "giles" and draw(st.integers(0, 7)) == 0:
         case["rates"] = "zero-alpha"
         case["maximum_level"] = min(case["maximum_level"], l0 + 2)
@@ -115,11 +117,22 @@ def build_engine(case, ledger_key, mode="hash", seed=None, nb_of_processes=1, sp
                             "cl": np.array(cl, dtype=float).copy(), "Ns": np.array(ns).copy()})
         return ns
 
-    config = ConfigurationMultiLevel(convergence_rates=rates,
-                                     convergence_criteria=ConvergenceCriteria(criteria=crit, compute_mc_paths=alloc),
-                                     initial_level=case["initial_level"], maximum_level=case["maximum_level"],
-                                     initial_mc_paths=case["n0"], seed=seed, control_variates=cv,
-                                     nb_of_processes=nb_of_processes)
+    if case.get("config_reassigned"):
+        # one configuration object re-used in a sweep: built for other values, its public attributes assigned afterwards
+        config = ConfigurationMultiLevel(convergence_rates=rates,
+                                         convergence_criteria=ConvergenceCriteria(criteria=crit, compute_mc_paths=alloc),
+                                         initial_level=case["initial_level"] + 1, maximum_level=case["maximum_level"] + 2,
+                                         initial_mc_paths=case["n0"] + int(case["config_reassigned"]), seed=seed,
+                                         control_variates=cv, nb_of_processes=None if nb_of_processes == 1 else nb_of_processes)
+        config.initial_level, config.maximum_level = case["initial_level"], case["maximum_level"]
+        config.initial_mc_paths = case["n0"]
+        config.nb_of_processes = nb_of_processes
+    else:
+        config = ConfigurationMultiLevel(convergence_rates=rates,
+                                         convergence_criteria=ConvergenceCriteria(criteria=crit, compute_mc_paths=alloc),
+                                         initial_level=case["initial_level"], maximum_level=case["maximum_level"],
+                                         initial_mc_paths=case["n0"], seed=seed, control_variates=cv,
+                                         nb_of_processes=nb_of_processes)
     engine = Engine(configuration=config, coupling_process=cp)
     return engine, product, crit_calls, alloc_calls
 
